@@ -78,3 +78,14 @@ import AcraNetwork.MPEG.PMT as _pmt
 FUNCS["mactoreadable"] = lambda mac: _se.mactoreadable(mac)
 FUNCS["buf_to_printable"] = lambda b: _ch11.buf_to_printable(b).encode("latin-1")
 FUNCS["bytes_to_ascii"] = lambda b: _pmt.bytes_to_ascii(b).encode("latin-1")
+
+# ---------------------------------------------------------------------------------------------- iteration cursor
+# `call iter` = iter(obj) (`__iter__` alone: rewinds / creates `_index`), `call next` = obj.next() (a direct call of the
+# public method, outside any loop); the op `iter` of the line protocol is a complete `for` loop.
+CURSOR_CLASSES = ("IENAM", "IENAQ", "IENAD", "IENAN", "NPD", "ParserAlignedPacket", "ARINC429DataPacket",
+                  "MILSTD1553DataPacket", "UARTDataPacket", "PCMDataPacket", "MPEGTS")
+def _iter_only(o):
+    iter(o)
+    return None
+for _n in CURSOR_CLASSES:
+    _calls(_n, next=lambda o: o.next(), iter=_iter_only)
